@@ -463,6 +463,7 @@ type zzC19Sub struct {
 	n    int
 	conc bool
 	pre  string
+	xs   []slip.Object // values for the placeholders $x0, $x1, ... (shared by all occurrences)
 }
 
 func (u *zzC19Sub) subst(obj slip.Object) slip.Object {
@@ -485,6 +486,9 @@ func (u *zzC19Sub) subst(obj slip.Object) slip.Object {
 			return slip.String(vrt.String(u.pre+"s"+strconv.Itoa(u.n), 2))
 		case "$e":
 			return slip.String("")
+		}
+		if len(to) == 3 && to[0] == '$' && to[1] == 'x' && int(to[2]-'0') < len(u.xs) {
+			return u.xs[to[2]-'0']
 		}
 		return to
 	case slip.List:
@@ -906,6 +910,206 @@ func VerifC19Defs(tmpl int, text int) {
 			vrt.Assert(slip.ObjectEqual(r1.val, r2.val), "original and reloaded function return different values")
 		}
 	}
+}
+
+// ---------------------------------------------------------------------------
+// inheritance chains of depth 3 whose leaf overrides an inherited default
+// ---------------------------------------------------------------------------
+
+type zzC19FamT struct {
+	src    string
+	family []string // top, mid, leaf (definition order); every name starts with the leaf name
+	get    string   // template of the form that reads x from a fresh instance, %s = class name
+}
+
+var zzC19Fams = []zzC19FamT{
+	/* 0: flavors, leaf default given by $x2 */
+	{`(defflavor zzc19w-top ((x $x0) (y $i)) () :gettable-instance-variables)
+	  (defflavor zzc19w-mid ((x $x1)) (zzc19w-top) :gettable-instance-variables)
+	  (defflavor zzc19w ((x $x2) (z $s)) (zzc19w-mid) :gettable-instance-variables)`,
+		[]string{"zzc19w-top", "zzc19w-mid", "zzc19w"}, "(send (make-instance (quote %s)) :x)"},
+	/* 1: classes, initforms */
+	{`(defclass zzc19y-top () ((x :initform $x0 :initarg :x) (y :initform $i)))
+	  (defclass zzc19y-mid (zzc19y-top) ((x :initform $x1)))
+	  (defclass zzc19y (zzc19y-mid) ((x :initform $x2) (z :initform $s)))`,
+		[]string{"zzc19y-top", "zzc19y-mid", "zzc19y"}, "(slot-value (make-instance (quote %s)) (quote x))"},
+	/* 2: flavors, the middle flavor does not mention x, the leaf overrides the grandparent */
+	{`(defflavor zzc19x-top ((x $x0)) () :gettable-instance-variables)
+	  (defflavor zzc19x-mid ((w $x1)) (zzc19x-top) :gettable-instance-variables)
+	  (defflavor zzc19x ((x $x2)) (zzc19x-mid) :gettable-instance-variables)`,
+		[]string{"zzc19x-top", "zzc19x-mid", "zzc19x"}, "(send (make-instance (quote %s)) :x)"},
+	/* 3: flavors, two parents: the first one without x, the second with the grandparent chain */
+	{`(defflavor zzc19z-top ((x $x0)) () :gettable-instance-variables)
+	  (defflavor zzc19z-mid ((x $x1)) (zzc19z-top) :gettable-instance-variables)
+	  (defflavor zzc19z-mix ((m $i)) () :gettable-instance-variables)
+	  (defflavor zzc19z ((x $x2)) (zzc19z-mix zzc19z-mid) :gettable-instance-variables)`,
+		[]string{"zzc19z-top", "zzc19z-mid", "zzc19z-mix", "zzc19z"}, "(send (make-instance (quote %s)) :x)"},
+}
+
+func zzC19Fmt(tmpl, name string) string {
+	out := ""
+	for i := 0; i < len(tmpl); i++ {
+		if tmpl[i] == '%' && i+1 < len(tmpl) && tmpl[i+1] == 's' {
+			out += name
+			i++
+		} else {
+			out += string(tmpl[i])
+		}
+	}
+	return out
+}
+
+// zzC19HasDefault: does the variable/slot list of a defflavor/defclass load
+// form give x the default v?  (x v) for flavors, (x ... :initform v ...) for classes.
+func zzC19HasDefault(form slip.Object, v int64) bool {
+	list, ok := form.(slip.List)
+	if !ok || len(list) < 4 {
+		return false
+	}
+	for _, pos := range []int{2, 3} {
+		vars, _ := list[pos].(slip.List)
+		for _, e := range vars {
+			el, isList := e.(slip.List)
+			if !isList || len(el) < 2 {
+				continue
+			}
+			if sym, isSym := el[0].(slip.Symbol); !isSym || string(sym) != "x" {
+				continue
+			}
+			if len(el) == 2 {
+				if f, isFix := el[1].(slip.Fixnum); isFix && int64(f) == v {
+					return true
+				}
+			}
+			for i := 1; i+1 < len(el); i++ {
+				if el[i] == slip.Symbol(":initform") {
+					if f, isFix := el[i+1].(slip.Fixnum); isFix && int64(f) == v {
+						return true
+					}
+				}
+			}
+		}
+	}
+	return false
+}
+
+// VerifC19DefsFamily: a chain top <- mid <- leaf where every level gives the
+// variable/slot x its own default. rel 0: leaf default == top default != mid
+// default; rel 1: three distinct defaults; rel 2: leaf default == mid default
+// != top default. The load form of every member is taken, (text != 0: sent
+// through pp.Append with a symbolic margin and the reader,) renamed, evaluated
+// in definition order; each reloaded member must have the renamed load form
+// (fixed point), the leaf's load form must still state its own default
+// (rel 0 and 1), and a fresh instance of every original and every reloaded
+// member must have x = the default that member declares.
+func VerifC19DefsFamily(tmpl int, rel int, text int) {
+	t := zzC19Fams[tmpl]
+	leaf := t.family[len(t.family)-1]
+	var xv [3]int64
+	if text != 0 {
+		xv = [4][3]int64{{1, 2, 1}, {1, 2, 3}, {1, 2, 2}, {1, 2, 3}}[rel]
+	} else {
+		for i := 0; i < 3; i++ {
+			xv[i] = vrt.Int64("fx" + strconv.Itoa(i))
+			vrt.Assume(-1000000 < xv[i] && xv[i] < 1000000)
+		}
+		switch rel {
+		case 0:
+			vrt.Assume(xv[2] == xv[0] && xv[1] != xv[0])
+		case 1, 3:
+			vrt.Assume(xv[0] != xv[1] && xv[1] != xv[2] && xv[0] != xv[2])
+		case 2:
+			vrt.Assume(xv[2] == xv[1] && xv[1] != xv[0])
+		}
+	}
+	u := zzC19Sub{pre: "f", conc: text != 0, xs: []slip.Object{slip.Fixnum(xv[0]), slip.Fixnum(xv[1]), slip.Fixnum(xv[2])}}
+	if rel == 3 { // relation 3: the defaults are the forms (list X0), (list X1), (list X2)
+		for i := range u.xs {
+			u.xs[i] = slip.List{slip.Symbol("list"), u.xs[i]}
+		}
+	}
+	// Flavor.inheritedVar compares the default objects with ==: two list defaults panic
+	vrt.Carve("C19-flavor-load-form-list-default-panics", rel == 3 && tmpl != 1)
+	scope := slip.NewScope()
+	code := slip.ReadString(t.src, scope)
+	mk := zzC19Run(func() slip.Object {
+		for _, f := range code {
+			scope.Eval(u.subst(f), 0)
+		}
+		return nil
+	})
+	vrt.Assert(mk.class == 0, "the family definition itself does not evaluate")
+	forms := make([]slip.Object, len(t.family))
+	lf := zzC19Run(func() slip.Object {
+		for i, name := range t.family {
+			forms[i] = zzC19Sexp(zzC19DefForm(name))
+		}
+		return nil
+	})
+	vrt.Assert(lf.class != 3, "Go run-time fault in LoadForm of a family member")
+	vrt.Assert(lf.class == 0, "LoadForm of a family member signals")
+	for _, f := range forms {
+		vrt.Assert(f != nil, "no load form for a family member")
+	}
+	// the value x would have without the leaf's own declaration: the nearest
+	// ancestor's (family 2: the middle flavor has no x of its own, so the top's)
+	nearest := xv[1]
+	if tmpl == 2 {
+		nearest = xv[0]
+	}
+	if xv[2] != nearest && rel != 3 {
+		vrt.Assert(zzC19HasDefault(forms[len(forms)-1], xv[2]), "the load form of the leaf lost the default the leaf declares")
+	}
+	if text != 0 {
+		margin := zzC19Margin()
+		for _, f := range forms {
+			zzC19TextTrip(f, margin, true)
+		}
+	}
+	re := zzC19Run(func() slip.Object {
+		s2 := slip.NewScope()
+		for _, f := range forms {
+			s2.Eval(zzC19Rename(f, leaf), 0)
+		}
+		return nil
+	})
+	vrt.Reach("reloaded")
+	vrt.Assert(re.class != 3, "Go run-time fault evaluating the load forms of a family")
+	vrt.Assert(re.class == 0, "the load forms of a family do not evaluate")
+	for i, name := range t.family {
+		rn := string(zzC19Rename(slip.Symbol(name), leaf).(slip.Symbol))
+		var form2 slip.Object
+		lf2 := zzC19Run(func() slip.Object { form2 = zzC19Sexp(zzC19DefForm(rn)); return nil })
+		vrt.Assert(lf2.class == 0 && form2 != nil, "no load form for a reloaded family member")
+		vrt.Assert(zzC19Same(form2, zzC19Rename(forms[i], leaf)), "load form of a reloaded family member differs (no fixed point)")
+	}
+	// behaviour: x of a fresh instance of top, mid and leaf, original and reloaded
+	level := map[string]int{t.family[0]: 0, t.family[1]: 1, leaf: 2}
+	for _, name := range t.family {
+		lv, has := level[name]
+		if !has {
+			continue
+		}
+		want := xv[lv]
+		if tmpl == 2 && lv == 1 {
+			want = xv[0] // the middle flavor of family 2 inherits x from the top
+		}
+		for _, nm := range []string{name, string(zzC19Rename(slip.Symbol(name), leaf).(slip.Symbol))} {
+			get := slip.ReadString(zzC19Fmt(t.get, nm), scope)
+			r := zzC19Run(func() slip.Object { return get.Eval(slip.NewScope(), nil) })
+			vrt.Assert(r.class != 3, "Go run-time fault reading x of an instance")
+			vrt.Assert(r.class == 0, "reading x of a fresh instance signals")
+			got := r.val
+			if l, isList := got.(slip.List); rel == 3 && isList && len(l) == 1 {
+				got = l[0] // relation 3: the value of (list X) is (X)
+			} else if rel == 3 {
+				got = nil
+			}
+			f, isFix := got.(slip.Fixnum)
+			vrt.Assert(isFix && int64(f) == want, "a fresh instance does not have the default its flavor/class declares for x")
+		}
+	}
+	vrt.Reach("behaved")
 }
 
 // ---------------------------------------------------------------------------
